@@ -155,6 +155,13 @@ pub struct ArcTweak {
     pub size_override: Option<(usize, u32)>,
     /// (record index, new offset field)
     pub offset_override: Option<(usize, u32)>,
+    /// retail style: every Info record additionally carries a label spelling its file name
+    /// (0 = no, 1 = after "Info" on the first record, 2 = before it); names "Count"/"Info" are skipped
+    pub label_records: u8,
+    /// retail style: a label "Data" on the start of the body block
+    pub data_label: bool,
+    /// files with equal contents share ONE stored body (a de-duplicating packer)
+    pub share_equal_bodies: bool,
 }
 
 pub struct ArcImage {
@@ -180,10 +187,18 @@ pub fn build_arc(files: &[(String, Vec<u8>)], l: &ArcLayout, tw: &ArcTweak) -> A
     let mut count_addr = 0usize;
     let mut info_addr = 0usize;
     let place_bodies = |data: &mut Vec<u8>, body_addr: &mut Vec<usize>| {
+        let mut placed: Vec<usize> = Vec::new();
         for &i in &l.body_order {
+            if tw.share_equal_bodies {
+                if let Some(&j) = placed.iter().find(|&&j| files[j].1 == files[i].1) {
+                    body_addr[i] = body_addr[j];
+                    continue;
+                }
+            }
             body_addr[i] = data.len();
             data.extend(&files[i].1);
             align_to(data, 4);
+            placed.push(i);
         }
     };
     let place_tables = |data: &mut Vec<u8>, count_addr: &mut usize, info_addr: &mut usize| {
@@ -203,10 +218,13 @@ pub fn build_arc(files: &[(String, Vec<u8>)], l: &ArcLayout, tw: &ArcTweak) -> A
             put_info(data, info_addr);
         }
     };
+    let bodies_start;
     if l.tables_first {
         place_tables(&mut data, &mut count_addr, &mut info_addr);
+        bodies_start = data.len();
         place_bodies(&mut data, &mut body_addr);
     } else {
+        bodies_start = data.len();
         place_bodies(&mut data, &mut body_addr);
         place_tables(&mut data, &mut count_addr, &mut info_addr);
     }
@@ -234,11 +252,30 @@ pub fn build_arc(files: &[(String, Vec<u8>)], l: &ArcLayout, tw: &ArcTweak) -> A
         data[at + 12..at + 16].copy_from_slice(&off.to_le_bytes());
     }
     c.data = data;
+    if tw.data_label {
+        c.labels.entry(bodies_start).or_default().push("Data".into());
+    }
+    let record_label = |c: &mut Content, slot: usize| {
+        let name = &files[l.record_order[slot]].0;
+        if name != "Count" && name != "Info" && !name.is_empty() {
+            c.labels.entry(info_addr + 16 * slot).or_default().push(name.clone());
+        }
+    };
+    if tw.label_records == 2 {
+        for slot in 0..n {
+            record_label(&mut c, slot);
+        }
+    }
     if !tw.omit_count_label {
         c.labels.entry(count_addr).or_default().push("Count".into());
     }
     if !tw.omit_info_label {
         c.labels.entry(info_addr).or_default().push("Info".into());
+    }
+    if tw.label_records == 1 {
+        for slot in 0..n {
+            record_label(&mut c, slot);
+        }
     }
     let data_size = c.data.len();
     ArcImage { bytes: ref_bin::write_canonical(&c), data_size, body_addr, padded: l.padded }
